@@ -42,6 +42,9 @@ def plans(tier):
         dict(fmt="npz", eps=1, depth=3,
              letters=letters(("train",), ("ok",), ("A", "AX", "I1", "S1",
                                                     "F"))),
+        # equal values with another insertion order of the keys
+        dict(fmt="fb", eps=2, depth=3,
+             letters=letters(("train",), ("ok",), ("AX", "XA", "N1", "N2"))),
         # nested lists that are prefixes of one another, growing / shrinking
         dict(fmt="fb", eps=3, depth=4,
              letters=letters(("train",), ("ok",), ("-", "L0", "L1", "L2"))),
